@@ -158,6 +158,53 @@ pub fn run(req: &J) -> J {
     if !alive { break; }
     alive = run_item(&mut intrp, code, "program", &mut events);
   }
+  let nsteps = req.get("steps").and_then(|b| b.as_u64()).unwrap_or(0);
+  if nsteps > 0 && alive {
+    // re-evaluation (C19): k single steps in this instance, then a second instance that runs the same items and asks
+    // for k steps at once, then a third that only re-runs the items (determinism across instances)
+    let push_store = |kind: &str, n: u64, ok: bool, class: &str, intrp: &Interpreter, events: &mut Vec<J>| -> bool {
+      let mut rec = Map::new();
+      rec.insert("kind".into(), json!(kind)); rec.insert("n".into(), json!(n)); rec.insert("ok".into(), json!(ok));
+      rec.insert("class".into(), json!(class)); rec.insert("origin".into(), json!("step")); rec.insert("text".into(), json!(format!("step {}", n)));
+      rec.insert("targets".into(), json!([])); rec.insert("mutable".into(), json!(false)); rec.insert("sub".into(), json!(false));
+      rec.insert("annotated".into(), json!(false)); rec.insert("from".into(), json!("-"));
+      let mut alive = true;
+      match catch_unwind(AssertUnwindSafe(|| store_digest(intrp))) {
+        Ok((s, m)) => { rec.insert("store".into(), J::Object(s)); rec.insert("mut".into(), json!(m)); }
+        Err(_) => { rec.insert("store".into(), json!({})); rec.insert("mut".into(), json!([])); rec.insert("class".into(), json!("STOREPANIC")); alive = false; }
+      }
+      events.push(J::Object(rec));
+      alive
+    };
+    let do_step = |intrp: &mut Interpreter, n: u64| -> (bool, String) {
+      match catch_unwind(AssertUnwindSafe(|| intrp.step(0, n))) {
+        Ok(Ok(_)) => (true, "-".to_string()),
+        Ok(Err(e)) => (false, e.kind_name().to_string()),
+        Err(_) => (false, "PANIC".to_string()),
+      }
+    };
+    let mut ok_all = true;
+    for _ in 0..nsteps {
+      let (ok, class) = do_step(&mut intrp, 1);
+      if class == "PANIC" { push_store("Step", 1, false, "PANIC", &Interpreter::new(0), &mut events); ok_all = false; alive = false; break; }
+      if !push_store("Step", 1, ok, &class, &intrp, &mut events) { alive = false; ok_all = false; break; }
+    }
+    if ok_all {
+      let mut scratch: Vec<J> = vec![];
+      let mut i2 = Interpreter::new(0);
+      let mut a2 = true;
+      for code in code_items(&tree).iter() { if !a2 { break; } a2 = run_item(&mut i2, code, "program", &mut scratch); }
+      if a2 {
+        let (ok, class) = do_step(&mut i2, nsteps);
+        if class == "PANIC" { push_store("StepN", nsteps, false, "PANIC", &Interpreter::new(0), &mut events); }
+        else { push_store("StepN", nsteps, ok, &class, &i2, &mut events); }
+      }
+      let mut i3 = Interpreter::new(0);
+      let mut a3 = true;
+      for code in code_items(&tree).iter() { if !a3 { break; } a3 = run_item(&mut i3, code, "program", &mut scratch); }
+      if a3 { push_store("Rerun", 0, true, "-", &i3, &mut events); }
+    }
+  }
   if probes && alive {
     // generic probe tail, computed from the names the program defined (ASCII identifiers only)
     let (store, _) = store_digest(&intrp);
